@@ -10,6 +10,8 @@ import (
 	"sort"
 	"strings"
 	"time"
+
+	"go.flow.arcalot.io/engine/internal/step"
 )
 
 func init() { register("engine", cmdEngine) }
@@ -132,11 +134,17 @@ func execEngineCaseTimeout(caseID string, wf *AWf, text string, beh map[string]B
 	}
 	currentScript.Store(s)
 	base := runtime.NumGoroutine()
-	reg, f, err := newRegistry(nil)
+	// engine-side log: transparent recording proxies around the real providers (every notification and every provided input,
+	// on the same sequence counter as the plugin-side log).  What the ENGINE saw a step do can differ from what the plugin did
+	// once the run is terminating (a step force-closed while its plugin was just finishing); the monitors use this log for
+	// "was produced".
+	rec := &c04Rec{s: s}
+	reg, f, err := newRegistry(func(p step.Provider) step.Provider { return c04Provider{Provider: p, rec: rec} })
 	if err != nil {
 		return map[string]any{"kind": "harness-error", "id": caseID, "error": err.Error()}
 	}
 	out := map[string]any{"kind": "engine", "id": caseID, "yaml": text, "wf": wf.json(), "input": encVal(input), "behaviours": beh}
+	defer func() { out["elog"] = rec.snapshot() }()
 	s.probe.Store(true)
 	prepared, err := prepareYAML(reg, f, text, nil)
 	s.probe.Store(false)
@@ -221,6 +229,7 @@ func cmdEngine(args []string) int {
 		fs.BoolVar(&evalFail, "evalfail", false, "generate expressions that may fail to evaluate at run time")
 		fs.BoolVar(&allTags, "tags", false, "every workflow uses the optional / one-of / or-disabled tags")
 		fs.BoolVar(&multiRef, "multiref", false, "expressions with several step references / several optional members on one source")
+		fs.IntVar(&slowLogMs, "slowlog", 0, "log step outputs (config.LoggedOutputConfigs) through a log sink that takes this many ms per such line")
 	})
 	w := openOut(c.out)
 	defer w.close()
